@@ -828,6 +828,17 @@ func (n *MJMLNode) GetTextContent() string {
 	return strings.TrimSpace(n.Text)
 }
 
+// EscapeCharData writes character data the XML layer has decoded back as HTML character data: a '<' or
+// '&' the author wrote as &lt; / &amp; (or in a CDATA section) must not turn into markup in the output.
+func EscapeCharData(s string) string {
+	if !strings.ContainsAny(s, "&<>") {
+		return s
+	}
+	return charDataEscaper.Replace(s)
+}
+
+var charDataEscaper = strings.NewReplacer("&", "&amp;", "<", "&lt;", ">", "&gt;")
+
 // GetMixedContent returns the full mixed content including HTML child elements
 // This reconstructs the original content like "Share <b>test</b> hi" from the AST
 func (n *MJMLNode) GetMixedContent() string {
@@ -841,7 +852,7 @@ func (n *MJMLNode) GetMixedContent() string {
 	}
 
 	if len(n.MixedContent) == 0 {
-		result := strings.TrimSpace(n.Text)
+		result := EscapeCharData(strings.TrimSpace(n.Text))
 		if debug.Enabled() {
 			debug.DebugLogWithData("parser", "text-only", "Returning plain text content", map[string]any{
 				"content": result,
@@ -882,7 +893,7 @@ func (n *MJMLNode) GetMixedContent() string {
 			if i == len(n.MixedContent)-1 {
 				text = strings.TrimRight(text, " \n\r\t")
 			}
-			result.WriteString(text)
+			result.WriteString(EscapeCharData(text))
 		}
 	}
 
